@@ -49,12 +49,24 @@ elements - shorter, longer, empty, doubled, elements shifted to a sibling row so
 two nodes at once; by list methods in place, by re-assigning the field, or constructed that way - and every enclosing value (the
 node, its rows/arrays/structures, the top-level value) has to refuse to dump it with ArraySizeError through TYPE.dumps(v), v.dumps(),
 TYPE.write(stream, v) and v.write(stream) (io.BytesIO and a real file); the top-level results also go to the model.
+
+Dumps that fail must not change the value (harness/v10_c07.py): multi-step sequences on ONE array value with a fault in the middle -
+build a value of `ELEM a[..]` (37 element kinds; fixed / expression / null-terminated / EOF, one or two dimensions; as the bare array
+type spelled by the API, a typedef or taken from the structure, as a member of T, of T inside O, of the second element of `T ts[2]`;
+plain list, tuple, the library's Array, the library's parsed value), make one element unwritable (out of range, negative uleb128,
+wrong type, a bad member of a structure element or of its nested structure / row, a row of the wrong length) or dump into a stream
+whose k-th write() raises OSError, dump 1-3 times through TYPE.dumps(v) / v.dumps() / TYPE.write / v.write (BytesIO, real file) on any
+enclosing value: after every call - raised or not - the array is the same object with the same length and elements (the terminator
+of x[] belongs to the bytes, never to the value) and so is the enclosing value; then the element is repaired in place and dumped
+again: exactly the bytes of the value (independently encoded for packed layouts: one terminator behind x[], none in-band; equal to
+the dump of a fresh equal value for all layouts), which parse back to the value with every following field in place; the final
+dump of T goes to the model.
 """
 from __future__ import annotations
 
 import itertools
 
-from .. import defs, impl, refimpl, s3_sets, t2_arrays, v4_c07, v9_c07
+from .. import defs, impl, refimpl, s3_sets, t2_arrays, v4_c07, v9_c07, v10_c07
 from ..common import Result, mkrng
 from ..structprops import Engine, load, real_parse, rand_bytes
 
@@ -394,6 +406,12 @@ def run(env) -> Result:
                 "lists, tuples, kw/positional/attribute construction, parsed) dumps to the input's bytes through TYPE.dumps/v.dumps/TYPE.write/"
                 "v.write (BytesIO, file) at every enclosing value; with one fixed-size node at any depth resized, shifted between sibling rows, "
                 "transposed or flattened (in place, re-assigned or constructed) every enclosing value refuses every call form with ArraySizeError. "
+                "Dumps that fail must not change the value: 37 element kinds x 11 dimension shapes (fixed/expression/null-terminated/EOF, 1-2 "
+                "dimensions) x {bare array type by API / typedef / field type, T, T in O, T ts[2] in O} x configurations x {list, tuple, Array, "
+                "parsed value} x {element out of range, negative uleb128, wrong type, bad nested member, row of wrong length, stream whose k-th "
+                "write raises OSError, no fault}: after 1-3 dumps (TYPE.dumps/v.dumps/TYPE.write/v.write; BytesIO, file, failing stream; on every "
+                "enclosing value) the array value is the same object with the same length and elements; after repairing the element in place the "
+                "dump is exactly the bytes of the value (independent encoder; one terminator behind x[], none in-band) and parses back to it. "
                 "distinct = (definition, config, input); non-trivial = the array has >= 1 element")
     eng = Engine(env, res, "C07")
     rnd = mkrng(env["seed"], "c07")
@@ -422,6 +440,8 @@ def run(env) -> Result:
     run_spacing(env, eng, res, mkrng(env["seed"], "c07-spacing"))
     eng.flush()
     v9_c07.run(env, eng, res, mkrng(env["seed"], "c07-shapes"))
+    eng.flush()
+    v10_c07.run(env, eng, res, mkrng(env["seed"], "c07-purity"))
     eng.flush()
     return res
 
